@@ -12,7 +12,8 @@ package that does not import the declaring package, two packages of one name on 
 import concurrent.futures, json, os, re, shutil
 import lib, worlds, worldgen, daggen
 
-CFG = (False, ["testdata"], [])
+CONFIGS = [("default", (False, ["testdata"], [])),
+           ("scan-tests, two exclude-paths entries naming things inside the module", (True, ["/near/", "d/funcs"], []))]
 TEXT = re.compile(r"^(\S+?\.go):(\d+):(\d+): (error: \[(\w+)\].*)$")
 
 
@@ -20,8 +21,18 @@ def key(d):
     return (d["file"], d["line"], d["col"], d["code"], d["message"].split("\n")[0])
 
 
-def vet_diags(ctx, root, patterns=("./...",)):
-    rc, out, err = lib.sh(["go", "vet", "-vettool=" + ctx.gg] + list(patterns), cwd=root, env=ctx.env, timeout=1800)
+def cfg_env(ctx, cfg):
+    e = dict(ctx.env)
+    e["GOGREEMENT_SCAN_TESTS"] = "true" if cfg[0] else "false"
+    e["GOGREEMENT_EXCLUDE_PATHS"] = ",".join(cfg[1])
+    e["GOGREEMENT_EXCLUDE_CHECKS"] = ",".join(cfg[2])
+    return e
+
+
+def vet_diags(ctx, root, cfg, patterns=("./...",)):
+    # the configuration goes through flags: cmd/go caches vet results per (files, tool, flags), not per environment
+    fl = ["-config.scan-tests=%s" % ("true" if cfg[0] else "false"), "-config.exclude-paths=" + ",".join(cfg[1]), "-config.exclude-checks=" + ",".join(cfg[2])]
+    rc, out, err = lib.sh(["go", "vet", "-vettool=" + ctx.gg] + fl + list(patterns), cwd=root, env=ctx.env, timeout=1800)
     res = set()
     for line in (err + "\n" + out).split("\n"):
         m = TEXT.match(line.strip())
@@ -33,15 +44,15 @@ def vet_diags(ctx, root, patterns=("./...",)):
     return res, rc, crashed, err[-1500:]
 
 
-def inproc_diags(ctx, root, flags=(), patterns=("./...",)):
-    rc, out, err = lib.sh([ctx.ggx, "inproc", "-dir", root] + list(flags) + list(patterns), cwd=root, env=ctx.env, timeout=1800)
+def inproc_diags(ctx, root, cfg, flags=(), patterns=("./...",)):
+    rc, out, err = lib.sh([ctx.ggx, "inproc", "-dir", root] + list(flags) + list(patterns), cwd=root, env=cfg_env(ctx, cfg), timeout=1800)
     try:
         j = json.loads(out)
     except Exception:
         return set(), rc, True, (err + out)[-1500:]
     diags, errors = lib.parse_json_diags(json.dumps(j.get("diags") or {}), root)
     errs = (j.get("errors") or []) + errors
-    return {key(d) for d in diags}, rc, bool(errs), "; ".join(errs)[-1500:]
+    return {key(d) for d in diags if not d["file"].startswith("..")}, rc, bool(errs), "; ".join(errs)[-1500:]
 
 
 def meta_sources(root, wid):
@@ -66,45 +77,54 @@ def run(ctx):
         wids.append(wid)
     dump = os.path.join(d, "dump.sx")
     src, serr = worlds.skel(ctx, root, dump)
-    jobs = {
-        "multichecker ./...": lambda: (lambda r: ({key(x) for x in r["diags"]}, r["rc"], r["crashed"] or bool(r["errors"]), r["stderr"][-800:]))(lib.run_binary(ctx, root, flags=worlds.cfg_flags(CFG), timeout=1800)),
-        "go vet -vettool (unitchecker)": lambda: vet_diags(ctx, root),
-        "in-process parallel": lambda: inproc_diags(ctx, root),
-        "in-process sequential": lambda: inproc_diags(ctx, root, ["-seq"]),
-        "in-process + fact sanity check": lambda: inproc_diags(ctx, root, ["-sanity"]),
-    }
-    with concurrent.futures.ThreadPoolExecutor(max_workers=5) as ex:
-        futs = {k: ex.submit(f) for k, f in jobs.items()}
-        res = {k: f.result() for k, f in futs.items()}
-    m = worlds.model_analyze(ctx, dump, CFG, root)
-    model = {(x["file"], x["line"], x["col"], x["code"], "error: [%s] %s" % (x["code"], x["message"].split("\n")[0])) for x in m["diags"]}
-    base = res["multichecker ./..."][0]
     found = False
     problems = []
-    for k, (ds, rc, bad, tail) in res.items():
-        if bad:
-            problems.append({"driver": k, "what": "driver failed", "exit_status": rc, "tail": tail})
-        if ds != base:
-            problems.append({"driver": k, "what": "diagnostics differ from the standalone binary's", "only_here": sorted(ds - base)[:8], "only_in_standalone": sorted(base - ds)[:8]})
-    if model != base or src != 0 or m["rc"] != 0:
-        problems.append({"driver": "Coq model", "what": "diagnostics differ from the standalone binary's", "only_in_model": sorted(model - base)[:8], "only_in_standalone": sorted(base - model)[:8],
-                         "skel": serr[-300:], "model_stderr": m["stderr"][-300:]})
-    subsets = []
-    for wid in wids[: (3 if ctx.tier != "thorough" else 12)]:
-        for pk in ("u", "far", "near", "v2/client", "ok"):
-            subsets.append((wid, pk))
+    summary = {}
+    nsub = 0
+    base = set()
+    for cname, CFG in CONFIGS:
+        jobs = {
+            "multichecker ./...": lambda CFG=CFG: (lambda r: ({key(x) for x in r["diags"] if not x["file"].startswith("..")}, r["rc"], r["crashed"] or bool(r["errors"]), r["stderr"][-800:]))(lib.run_binary(ctx, root, flags=worlds.cfg_flags(CFG), timeout=1800)),
+            "go vet -vettool (unitchecker)": lambda CFG=CFG: vet_diags(ctx, root, CFG),
+            "in-process parallel": lambda CFG=CFG: inproc_diags(ctx, root, CFG),
+            "in-process sequential": lambda CFG=CFG: inproc_diags(ctx, root, CFG, ["-seq"]),
+            "in-process + fact sanity check": lambda CFG=CFG: inproc_diags(ctx, root, CFG, ["-sanity"]),
+        }
+        with concurrent.futures.ThreadPoolExecutor(max_workers=5) as ex:
+            futs = {k: ex.submit(f) for k, f in jobs.items()}
+            res = {k: f.result() for k, f in futs.items()}
+        m = worlds.model_analyze(ctx, dump, CFG, root)
+        model = {(x["file"], x["line"], x["col"], x["code"], "error: [%s] %s" % (x["code"], x["message"].split("\n")[0])) for x in m["diags"]}
+        base = res["multichecker ./..."][0]
+        summary[cname] = {k: {"diagnostics": len(v[0]), "exit_status": v[1]} for k, v in res.items()}
+        summary[cname]["Coq model"] = {"diagnostics": len(model)}
+        for k, (ds, rc, bad, tail) in res.items():
+            if bad:
+                problems.append({"config": cname, "driver": k, "what": "driver failed", "exit_status": rc, "tail": tail})
+            if ds != base:
+                problems.append({"config": cname, "driver": k, "what": "diagnostics differ from the standalone binary's", "only_here": sorted(ds - base)[:8], "only_in_standalone": sorted(base - ds)[:8]})
+        if model != base or src != 0 or m["rc"] != 0:
+            problems.append({"config": cname, "driver": "Coq model", "what": "diagnostics differ from the standalone binary's", "only_in_model": sorted(model - base)[:8], "only_in_standalone": sorted(base - model)[:8],
+                             "skel": serr[-300:], "model_stderr": m["stderr"][-300:]})
+        subsets = []
+        for wid in wids[: (3 if ctx.tier != "thorough" else 12)]:
+            for pk in ("u", "far", "near", "v2/client", "ok", "tv/a", "tv/b"):
+                subsets.append((wid, pk))
+        nsub += len(subsets)
 
-    def one_subset(wp):
-        wid, pk = wp
-        r = lib.run_binary(ctx, root, flags=worlds.cfg_flags(CFG), patterns=["./%s/%s/..." % (wid, pk)], timeout=900)
-        got = {key(x) for x in r["diags"]}
-        want = {x for x in base if x[0].startswith("%s/%s/" % (wid, pk))}
-        return wp, got, want, r
-    with concurrent.futures.ThreadPoolExecutor(max_workers=lib.NCPU) as ex:
-        for wp, got, want, r in ex.map(one_subset, subsets):
-            if got != want or r["crashed"]:
-                problems.append({"driver": "multichecker ./%s/%s/... (only this package named)" % wp, "what": "diagnostics of the package differ from those in the ./... run",
-                                 "only_when_named_alone": sorted(got - want)[:8], "only_in_full_run": sorted(want - got)[:8]})
+        def one_subset(wp, CFG=CFG, base=base):
+            wid, pk = wp
+            r = lib.run_binary(ctx, root, flags=worlds.cfg_flags(CFG), patterns=["./%s/%s/..." % (wid, pk)], timeout=900)
+            got = {key(x) for x in r["diags"] if not x["file"].startswith("..")}
+            want = {x for x in base if x[0].startswith("%s/%s/" % (wid, pk))}
+            return wp, got, want, r
+        with concurrent.futures.ThreadPoolExecutor(max_workers=lib.NCPU) as ex:
+            for wp, got, want, r in ex.map(one_subset, subsets):
+                if got != want or r["crashed"]:
+                    problems.append({"config": cname, "driver": "multichecker ./%s/%s/... (only this package named)" % wp, "what": "diagnostics of the package differ from those in the ./... run",
+                                     "only_when_named_alone": sorted(got - want)[:8], "only_in_full_run": sorted(want - got)[:8]})
+    subsets = [None] * nsub
+    res = {}
     far = sorted(x for x in base if "/far/" in x[0])
     if problems:
         found = True
@@ -114,14 +134,13 @@ def run(ctx):
                        "what": "the diagnostics depend on the driver / on which packages are analysed alongside / on an indirect dependency"})
     shutil.rmtree(d, ignore_errors=True)
     lib.obligation_gate(rep, ctx, "C06", found)
-    rep.cov["evaluations"] = len(res) * len(base) + len(subsets)
+    rep.cov["evaluations"] = sum(v["diagnostics"] for c in summary.values() for v in c.values()) + len(subsets)
     rep.cov["distinct_nontrivial"] = len(base)
     rep.cov["rule"] = ("%d worlds (12+ packages each: declaring package, alias package, users, @implements packages, an API package re-exporting annotated values, a package that reaches them only through "
                        "that API, one that imports both, two packages of the same name, grammar-sweeping annotation values) analysed by the standalone binary, go vet -vettool, in-process "
-                       "checker.Analyze parallel / sequential / with SanityCheck, and the Coq model: the sets of (file, line, column, code, message) must coincide; plus %d runs naming a single "
+                       "checker.Analyze parallel / sequential / with SanityCheck, and the Coq model: under two configurations (default; scan-tests with exclude-paths entries matching a directory and a file of the module, so that test variants and excluded annotation sources take part): the sets of (file, line, column, code, message) must coincide; plus %d runs naming a single "
                        "package. non-trivial = distinct diagnostics of the reference run, each of which every driver has to reproduce" % (n, len(subsets)))
-    rep.cov["drivers"] = {k: {"diagnostics": len(v[0]), "exit_status": v[1]} for k, v in res.items()}
-    rep.cov["model_diagnostics"] = len(model)
+    rep.cov["drivers"] = summary
     rep.cov["diagnostics_in_the_package_without_direct_import"] = far
     rep.cov["samples"] = [list(x) for x in sorted(base)[:3]]
     rep.assumptions = ["gob and the unitchecker fact files are exercised, not modelled beyond the exported-field rule (partial: DESIGN section 5, C06)"]
